@@ -9,5 +9,7 @@ pub mod ev;
 pub mod front;
 pub mod model;
 pub mod sink;
+#[path = "../../../plain/src/scope.rs"]
+pub mod plain_scope;
 
 pub mod checks;
